@@ -91,6 +91,7 @@ class CustomExc(Exception):
 
 
 def kinds_of(texts):
+    """left sides of every check in the given rule values (a superset is fine)"""
     ks = set()
     for t in texts:
         if isinstance(t, str):
@@ -99,7 +100,12 @@ def kinds_of(texts):
                 if ':' in w:
                     ks.add(w.split(':', 1)[0])
         elif isinstance(t, (list, tuple)):
-            ks |= kinds_of(t)
+            for entry in t:
+                members = [entry] if isinstance(entry, str) else entry
+                if isinstance(members, (list, tuple)):
+                    for m in members:
+                        if isinstance(m, str) and ':' in m:
+                            ks.add(m.split(':', 1)[0])
     return ks
 
 
